@@ -649,10 +649,14 @@ impl Drop for OsOpaqueIpcChannel {
     fn drop(&mut self) {
         // Make sure we don't leak!
         //
-        // The `OsOpaqueIpcChannel` objects should always be used,
-        // i.e. converted with `to_sender()` or `to_receiver()` --
-        // so the value should already be unset before the object gets dropped.
-        debug_assert!(self.fd == -1);
+        // The `OsOpaqueIpcChannel` objects are usually converted
+        // with `to_sender()` or `to_receiver()`, which unsets the value.
+        // A message may however be dropped without (or with only partly) being decoded,
+        // in which case the descriptor is still ours to close.
+        if self.fd >= 0 {
+            let result = unsafe { libc::close(self.fd) };
+            assert!(thread::panicking() || result == 0);
+        }
     }
 }
 
